@@ -288,7 +288,7 @@ def run(ctx: Ctx) -> None:
     )
     ctx.assumptions = ["docstring style PLAINTEXT (C14 owns docstring defaults)", "-0.0 and 0.0 are the same float value", *(["recogniser leniency: " + x for x in __import__("vf.sdsparse").sdsparse.LENIENT[:2]])]
     failures = engine.run_cases(ctx, MOD, deterministic_cases(ctx))
-    failures += engine.search(ctx, MOD, shards=ctx.n(16, 64), examples=ctx.n(4, 25))
+    failures += engine.search(ctx, MOD, shards=ctx.n(16, 64), examples=ctx.n(8, 25))
     engine.report_failures(ctx, MOD, failures)
     engine.replay_known(ctx, MOD)
 
